@@ -252,32 +252,37 @@ static void c8_case(uint64_t idx, void *vctx)
                         }
                         /* mk = 1: the same request through an a8 mask holding only 0 and 0xff: a masked-out pixel must come out 0 and must not
                          * disturb the sampling position of the pixels after it (fetchers skip source pixels whose mask is 0) */
-                        for (int mk = 0; mk < 2; mk++) for (int ci = 0; ci < 3; ci++) {
+                        /* mk = 2: a component-alpha a8r8g8b8 mask holding ffffffff and 00ffffff: where its ALPHA is 0 the colour channels still pass (only the
+                         * result's alpha becomes 0), so the source must be sampled there like anywhere else */
+                        for (int mk = 0; mk < 3; mk++) for (int ci = 0; ci < 3; ci++) {
                             if (mk && (off || !(FIL[fl].kind < 2 || fl == 4 || c->projective))) continue;
                             ph_set_cfg(CF[ci]);
                             uint32_t dbuf[DH][DW]; memset(dbuf, 0xa5, sizeof dbuf);
                             static const uint8_t mrow[2][8] = { { 0xff, 0x00, 0xff, 0xff, 0x00, 0x00, 0, 0 }, { 0x00, 0x00, 0xff, 0x00, 0xff, 0xff, 0, 0 } };
                             uint8_t mbuf[DH][8]; for (int y = 0; y < DH; y++) memcpy(mbuf[y], mrow[y & 1], 8);
                             pixman_image_t *dst = pixman_image_create_bits(PIXMAN_a8r8g8b8, DW, DH, &dbuf[0][0], DW * 4);
-                            pixman_image_t *msk = mk ? pixman_image_create_bits(PIXMAN_a8, DW, DH, (uint32_t *)&mbuf[0][0], 8) : NULL;
+                            uint32_t cabuf[DH][8]; for (int y = 0; y < DH; y++) for (int x = 0; x < 8; x++) cabuf[y][x] = mbuf[y][x] ? 0xffffffffu : 0x00ffffffu;
+                            pixman_image_t *msk = mk == 1 ? pixman_image_create_bits(PIXMAN_a8, DW, DH, (uint32_t *)&mbuf[0][0], 8) : mk == 2 ? pixman_image_create_bits(PIXMAN_a8r8g8b8, DW, DH, &cabuf[0][0], 32) : NULL;
+                            if (mk == 2) pixman_image_set_component_alpha(msk, 1);
                             pixman_image_composite32(PIXMAN_OP_SRC, src, msk, dst, 0, 0, dx0, dy0, dx0, dy0, DW - dx0, DH - dy0);
                             pixman_image_unref(dst); if (msk) pixman_image_unref(msk);
                             vf_count_libcalls(1); ev++;
                             for (int y = 0; y < DH; y++) for (int x = 0; x < DW; x++) {
                                 if (x < dx0 || y < dy0) { if (dbuf[y][x] != 0xa5a5a5a5) { vf_violation("c08-wrote-outside-request", "transform %s: pixel (%d,%d) outside the request modified", tdesc, x, y); goto done; } continue; }
-                                if (mk && mbuf[y][x] == 0) {
+                                uint32_t keep = (mk == 2 && mbuf[y][x] == 0) ? 0x00ffffffu : 0xffffffffu;
+                                if (mk == 1 && mbuf[y][x] == 0) {
                                     if (dbuf[y][x] != 0) { vf_violation("c08-masked-out-pixel-not-zero", "transform %s filter=%s: pixel (%d,%d) has mask 0 but SRC left %08x", tdesc, FIL[fl].name, x, y, dbuf[y][x]); goto done; }
                                     continue;
                                 }
                                 if (nexp[y][x] == 0) continue;     /* position not representable: not judged */
-                                int ok = 0; for (int k = 0; k < nexp[y][x]; k++) if (exp[y][x][k] == dbuf[y][x]) ok = 1;
+                                int ok = 0; for (int k = 0; k < nexp[y][x]; k++) if ((exp[y][x][k] & keep) == dbuf[y][x]) ok = 1;
                                 if (!ok) {
                                     const char *key = "c08-sample-mismatch";
                                     if (c->projective) key = "c08-projective-sample-mismatch";
                                     else if (FIL[fl].kind >= 2) { int neg = 0; for (int k = 0; k < FIL[fl].n; k++) if (FIL[fl].p[k] < 0) neg = 1; if (neg) key = "c08-convolution-negative-total"; }
                                     if (mk) key = "c08-sample-mismatch-behind-mask";
                                     vf_violation(key, "source %s %dx%d repeat=%d filter=%s %stransform %s request origin (%d,%d) PIXMAN_DISABLE=[%s]: destination (%d,%d) = %08x, reference %08x%s",
-                                                 FMN[fi], sw, sh, ri, FIL[fl].name, mk ? "through an a8 mask of 0/ff runs, " : "", tdesc, dx0, dy0, ph_cfg_name(CF[ci], cfgn, sizeof cfgn), x, y, dbuf[y][x], exp[y][x][0],
+                                                 FMN[fi], sw, sh, ri, FIL[fl].name, mk == 1 ? "through an a8 mask of 0/ff runs, " : mk == 2 ? "through a component-alpha mask of ffffffff/00ffffff runs, " : "", tdesc, dx0, dy0, ph_cfg_name(CF[ci], cfgn, sizeof cfgn), x, y, dbuf[y][x], exp[y][x][0],
                                                  nexp[y][x] > 1 ? " (or a neighbour within one ulp of the quotient)" : "");
                                     goto done;
                                 }
